@@ -244,7 +244,12 @@ def run_cell(prog, cls, roles, cell):
         it_.n_fresh = 0
         it_.scanned = False
         model.emitted = None
-        it_.facts = [le(0, S), le(S, P), lt(P, N), le(N, 1 << 40), le(S, R), le(R, P - 2)]
+        it_.facts = [le(0, S), le(S, P), lt(P, N), le(N, 1 << 40)]
+        # the remembered CR lies inside the field: only cells that have one constrain the cursor (a field may start at offset 0 of the text)
+        if cell.get('cr') == 'earlier':
+            it_.facts.extend([le(S, R), le(R, P - 2)])
+        elif cell.get('cr') == 'adjacent':
+            it_.facts.append(le(S, P - 1))
         if cell.get('last_char') or cell.get('sep_last'):
             it_.facts.extend(eq(P + 1, N))
         elif 'last_char' in cell:
